@@ -55,9 +55,15 @@ def canon(t, v, env=None):
 
 
 def norm(t, v, env=None):
-    """transient fields take their declared defaults (what a decode of the encoding returns)"""
+    """transient fields take their declared defaults (what a decode of the encoding returns); a BigDecimal comes
+    back as the representative its decimal text determines (BigDec.bd_norm)"""
     k = t[0]
     if isinstance(v, str):
+        return v
+    if k == "prim" and t[1] == "bigdec" and len(v) == 3:
+        i, sc = int(v[1][1:]), int(v[2][1:])
+        if -15 <= sc < 0:
+            return ["0", "z" + str(i * 10 ** (-sc)), "z0"]
         return v
     if k == "opt":
         return [v[0]] + [norm(t[1], x, env) for x in v[1:]]
